@@ -59,8 +59,18 @@ PROPS["C14"] = {
     "technique": "Verus contracts on the extracted real ws::Parser::{parse_metadata, parse} and OpCode conversions against an RFC 6455 section 5.2 header oracle; header segmentation lemma over the contracts",
     "level_text": "deductive proof, for all byte strings, roles and max_size values, that the frame parser decides exactly the RFC 6455 header (mask bit per role, reserved opcodes, 7/16/64-bit lengths), consumes nothing until a frame is complete, then consumes exactly idx+len bytes, unmasks the payload, rejects over-long control frames and never delivers more than max_size; decided headers are stable under extension of the input (segmentation lemma)",
     "level_note": "assumes shim contracts for BytesMut, big-endian helpers (R14) and apply_mask == XOR with key[i mod 4]; one obligation (oversize frame refused before buffering) fails on the unchanged tree and is recorded as a known finding",
-    "not_decided": ["hash_key / handshake (sha1, base64 dependencies)", "Codec::decode continuation-flag automaton and Parser::write_message round trip: units under construction"],
+    "not_decided": ["hash_key / handshake (sha1, base64 dependencies)", "Parser::write_message and the encode/decode round trip: unit under construction", "payload bytes carried by Codec::decode's Frame (closures payload.map(|pl| pl.freeze())): only the frame kind and the continuation flag are decided"],
     "assumptions": ["Parser::parse precondition: the buffer length fits usize (type invariant of BytesMut)"],
+}
+
+PROPS["C15"] = {
+    "units": ["multipart_payload"],
+    "kani": [],
+    "technique": "Verus contracts on the extracted real multipart PayloadBuffer (conservation of bytes between stream, pending chunk and buffer; bounded fill; wake-up tokens) and its line/needle readers against a first-occurrence oracle",
+    "level_text": "deductive proof, for all buffer states, chunk sequences and limits, that PayloadBuffer::append_pending/poll_stream conserve bytes (buffer ++ pending is unchanged by moving data), never grow the buffer past its limit, set eof only at stream end, and never return without a wake-up source (stream registered, self-wake, or data the caller must consume); read_max/read_until/readline/unprocessed return exactly the specified prefix and report a truncated body as Incomplete",
+    "level_note": "assumes shim contracts for BytesMut/Bytes, memchr::memmem::find == first occurrence, Stream::poll_next returning Pending registers the waker, Waker::wake_by_ref establishes the wake token",
+    "not_decided": ["InnerField::read_stream / read_len delimiter scan and Multipart::read_boundary/skip_until_boundary/read_field_headers: units under construction", "header parsing of each part (httparse dependency)"],
+    "assumptions": ["poll_stream/append_pending precondition: buffer length fits usize; a parked pending chunk is non-empty (established by the functions themselves)"],
 }
 
 _PENDING = "not claimed yet: contracts for this property are still under construction in this session"
